@@ -1,10 +1,11 @@
 /-
   Engine `midi` (C20).  Op line (see harness/midi.cpp for the full description):
-    P:<t>:<min8>:<max8>[,...]  <op> ...      ops: m<k>c m<k>f u<k>c u<k>f x r n c:<par>:<val>[:<chan>:<nrpn>]
+    P:<sig><flags>:<min8>:<max8>[:<depth>.<pad>][,...]  <op> ...      ops: m<k>c m<k>f u<k>c u<k>f x r n c:<par>:<val>[:<chan>:<nrpn>]
   Output: one token per `c` op (`-` | p<k>:i:<dec> | p<k>:f:<8 hex>), `.` when there is none;
   `crash:asan:heap-buffer-overflow` when the model says the implementation indexes outside a vector.
   A line starting with the word `T` instead prints the trigger predicates of the rest of
-  the line:  `K1=<0|1> K2=<0|1>` (used by tools/props/c20.py to attribute known findings).
+  the line:  `K1=<0|1> K2=<0|1>[ at=<index of the first hazard step>]` (used by tools/props/c20.py to
+  attribute known findings).
 -/
 import RtoscModel.Midi
 import Driver.Common
@@ -22,19 +23,43 @@ def parseInt? (s : String) (max : Nat) : Option Int :=
     if s.length < 2 || s.length > 9 then none else (parseNat? (s.drop 1).toString max).map (fun n => -(n : Int))
   else (parseNat? s max).map (fun n => (n : Int))
 
-def parsePort (s : String) : Option PortSpec :=
-  match s.splitOn ":" with
-  | [t, a, b] =>
-    if t ≠ "i" ∧ t ≠ "f" then none else
-    match parseInt? a 8388607, parseInt? b 8388607 with
-    | some mn, some mx => some ⟨t = "i", mn, mx⟩
+def parseSig (c : Char) : Option Sig :=
+  if c = 'i' then some .i else if c = 'f' then some .f else if c = 'I' then some .oi
+  else if c = 'F' then some .of else if c = 'j' then some .fi else if c = 'g' then some .ifl else none
+
+def parseShape (s : String) : Option (Nat × Nat) :=
+  match s.splitOn "." with
+  | [a, b] =>
+    match parseNat? a 3, parseNat? b 60 with
+    | some d, some p => some (d, p)
     | _, _ => none
   | _ => none
 
-def parsePorts (w : String) : Option (List PortSpec) :=
+def parsePort (k : Nat) (s : String) : Option PortDecl :=
+  let go (t a b : String) (shape : Nat × Nat) : Option PortDecl :=
+    match t.toList with
+    | [] => none
+    | c :: flags =>
+      match parseSig c with
+      | none => none
+      | some sg =>
+        if !flags.all (fun x => "dpLsul".toList.contains x) then none else
+        match parseInt? a 8388607, parseInt? b 8388607 with
+        | some mn, some mx => some ⟨k, sg, flags, mn, mx, shape.1, shape.2⟩
+        | _, _ => none
+  match s.splitOn ":" with
+  | [t, a, b] => go t a b (0, 0)
+  | [t, a, b, sh] => (parseShape sh).bind (go t a b)
+  | _ => none
+
+def parseDecls (w : String) : Option (List PortDecl) :=
   if !w.startsWith "P:" || w.length < 3 then none else
   let specs := (w.drop 2).toString.splitOn ","
-  if specs.length > 10 then none else specs.mapM parsePort
+  if specs.length > 10 then none else (specs.zipIdx.mapM fun (s, k) => parsePort k s)
+
+/-- the port table as the mapper sees it (`generateNewBijection`'s reading of each port) -/
+def parsePorts (w : String) : Option (List PortSpec) :=
+  (parseDecls w).map (·.map PortDecl.toSpec)
 
 def digitOf (c : Char) : Option Nat := if c.isDigit then some (c.toNat - 48) else none
 
@@ -87,13 +112,25 @@ def parseLine (ws : List String) : Option (List PortSpec × List Op) :=
       | none => none
       | some ops => some (ports, ops)
 
+/-- index (in the op list) of the first step that is a hazard; a crash ends the scan -/
+def firstHazard (ports : List PortSpec) : Sys → List Op → Nat → Option Nat
+  | _, [], _ => none
+  | s, op :: ops, i =>
+    if hazard s op then some i else
+    match Rtosc.Midi.step ports s op with
+    | none => none
+    | some (s', _) => firstHazard ports s' ops (i + 1)
+
 def step (line : String) : String :=
   match words line with
   | "T" :: rest =>
     match parseLine rest with
     | none => "bad-op"
     | some (ports, ops) =>
-      s!"K1={if triggerK1 ports ops then 1 else 0} K2={if triggerK2 ports ops then 1 else 0}"
+      let atTok := match firstHazard ports Sys.init ops 0 with
+        | some i => s!" at={i}"
+        | none => ""
+      s!"K1={if triggerK1 ports ops then 1 else 0} K2={if triggerK2 ports ops then 1 else 0}{atTok}"
   | ws =>
     match parseLine ws with
     | none => "bad-op"
